@@ -44,7 +44,8 @@ KINDS_QUICK = ["RuntimeError", "AssertionError", "ConnectionError", "InvalidArgu
 KINDS_ALL = ["RuntimeError", "ValueError", "KeyError", "AttributeError", "AssertionError", "ConnectionError", "Timeout",
              "InvalidArgument", "PatternError"]
 STAGES = ["iterate", "construct", "generate", "before_call", "transport", "after_call", "check"]
-OPS = {"unit3": ["GET /a", "GET /b", "GET /c"], "unit2": ["GET /a", "GET /b"], "link": ["POST /users", "GET /users/{id}"]}
+OPS = {"unit3": ["GET /a", "GET /b", "GET /c"], "unit2": ["GET /a", "GET /b"], "link": ["POST /users", "GET /users/{id}"],
+       **{name: ["GET /a", "GET /b"] for name in ee.BROKEN_DOCS}}
 
 
 def items(tier: str, seed: int) -> list[dict]:
@@ -72,6 +73,12 @@ def items(tier: str, seed: int) -> list[dict]:
     add(phases=["examples", "fuzzing"], behaviour="two_kinds:/a", extra_checks="status", cof=True)
     add(behaviour="all500", max_failures=1, workers=2, p=b["preemptions_worker_stages"])
     add(behaviour="fail:/b", unique=True)
+    # a defect of the document (unusable path item) before / between / after healthy operations of a conforming API
+    for doc in ee.BROKEN_DOCS:
+        for phases in (["fuzzing"], ["examples", "coverage", "fuzzing"]):
+            add(doc=doc, phases=phases)
+        if tier != "quick" or doc == "unit2_broken_last":
+            add(doc=doc, phases=["fuzzing"], workers=2, p=b["preemptions_worker_stages"])
     add(doc="link", phases=["stateful"], behaviour="ok")
     add(doc="link", phases=["stateful"], behaviour="fail_get_user")
     add(doc="link", phases=["examples", "coverage", "fuzzing", "stateful"], behaviour="fail_get_user")
@@ -167,6 +174,8 @@ def judge(item: dict, run: Any, r: Any, fault_state: Any, res: Result, current_i
               "worker_errors": [(n, repr(e)[:200]) for n, e in r.worker_errors]}
     base = {"stage": stage, "fault": fault.get("kind"), "persistent": fault.get("persistent"), "k": fault.get("k"),
             "stateful": "stateful" in item["phases"], "workers_gt1": item["workers"] > 1}
+    if item["doc"] in ee.BROKEN_DOCS:
+        base["schema_defect"] = item["doc"]
     code, console = cli_exit_code(item, events)
     nonzero = not (code == 0 or code is None)
 
@@ -212,7 +221,8 @@ def judge(item: dict, run: Any, r: Any, fault_state: Any, res: Result, current_i
         is_operation = x.path in op_paths or (item["doc"] == "link" and x.path.startswith("/users/"))
         if x.status is not None and x.status >= 500 and is_operation:
             failing_paths.add(x.path)
-    something_wrong = fired or bool(failing_paths) or bool(r.worker_errors)
+    schema_defect = item["doc"] in ee.BROKEN_DOCS
+    something_wrong = fired or bool(failing_paths) or bool(r.worker_errors) or schema_defect
     bad_scenarios = [e for e, n in zip(events, names) if n == "ScenarioFinished" and getattr(e.status, "name", "") in ("FAILURE", "ERROR")]
     errors = [e for e, n in zip(events, names) if n == "NonFatalError"]
     if something_wrong:
